@@ -41,7 +41,9 @@ H = Harness("C07", ["OQ.Base.CaseEq", "OQ.Circ.GateAst", "OQ.Circ.GateAstCases"]
             "directly with the class constructors, then 1-2 calls), replace (replace_params after the chain vs chain after "
             "replace_params, numeric and symbolic new parameters), sem (exact matrices of X Z S SX CNOT custom under "
             "controlled/dagger/integer powers vs the model's matrix), suffix -num = numpy/scipy oracle evaluated on the "
-            "last call, -num-skip = matrix too large for sympy, -num-timeout = sympy did not answer within the alarm; "
+            "last call, -num-skip = matrix too large (dimension > 4 with exp, > 8 without) or a gate on which sympy 1.9 is "
+            "known not to answer in seconds, -num-timeout = sympy did not answer within the 5 s alarm, -num-sympyfail = "
+            "sympy's Jordan form failed on a nested fractional power / exponential; "
             "non-trivial = at least two calls, or a call that re-associates")
 
 # ----------------------------------------------------------------------------- Python side
@@ -144,6 +146,30 @@ def has_frac_power(g):
         g = g.wrapped_gate
     return False
 
+def transcendental_nodes(g):
+    """Number of Exponential and non-integer Power nodes."""
+    n = 0
+    while type(g) is not MatrixFactoryGate:
+        if type(g) is Exponential or (type(g) is Power and not isinstance(g.exponent, int)):
+            n += 1
+        g = g.wrapped_gate
+    return n
+
+def sympy_slow(g):
+    """Gates whose matrix sympy 1.9 does not produce within seconds: an exponential of a matrix with irrational
+    or float entries, nested exponentials, a fractional or negative power of an exponential."""
+    cl, b, pw = [], g, False
+    slow = False
+    while type(b) is not MatrixFactoryGate:
+        if type(b) is Power and (not isinstance(b.exponent, int) or b.exponent < 0):
+            pw = True
+        if type(b) is Exponential and pw:
+            slow = True
+        cl.append(type(b).__name__)
+        b = b.wrapped_gate
+    n = cl.count("Exponential")
+    return slow or n >= 2 or (n == 1 and b.name in ("T", "RX", "RZ", "cp"))
+
 def classes(g):
     out = []
     while type(g) is not MatrixFactoryGate:
@@ -172,6 +198,11 @@ def matrix_of(g, timeout):
     if d > (4 if uses_exp(g) else 8):
         return ("skip", f"dimension {d}")
     st, v = outcome(lambda: npmat(g.matrix), timeout=timeout)
+    if st == "err" and v in ("IndexError", "NotImplementedError", "Other:MatrixError") and transcendental_nodes(g) >= 2:
+        # sympy 1.9: jordan_form fails on the unsimplified symbolic / float entries that an earlier exp() or
+        # fractional ** produced (empty nullspace -> IndexError, "inconsistent result while computing Jordan
+        # block" -> MatrixError, Matrix.exp() -> NotImplementedError): no matrix to compare
+        return ("sympyfail", "")
     if st == "ok":
         if not np.all(np.isfinite(v)):
             return ("err", "non-finite entries")
@@ -181,16 +212,16 @@ def matrix_of(g, timeout):
 def close(a, b):
     return a.shape == b.shape and np.allclose(a, b, atol=TOL, rtol=0)
 
-def numeric_last_step(g, m, G, timeout):
+def numeric_last_step(g, m, G, timeout, fast):
     """Does G = m(g) mean what m says?  -> (status, ok, msg, f8) with status in num / num-skip / num-timeout."""
+    if fast and sympy_slow(G):
+        return ("num-skip", True, "sympy is too slow on this gate (quick tier)", False)
     r0 = matrix_of(g, timeout)
     if r0[0] != "ok":
-        return ("num-skip" if r0[0] == "skip" else "num-timeout" if r0[0] == "timeout" else "num-err",
-                r0[0] != "err", f"matrix of the receiver: {r0[1]}", False)
+        return ("num-err" if r0[0] == "err" else "num-" + r0[0], r0[0] != "err", f"matrix of the receiver: {r0[1]}", False)
     r1 = matrix_of(G, timeout)
     if r1[0] != "ok":
-        return ("num-skip" if r1[0] == "skip" else "num-timeout" if r1[0] == "timeout" else "num-err",
-                r1[0] != "err", f"matrix of the result: {r1[1]}", False)
+        return ("num-err" if r1[0] == "err" else "num-" + r1[0], r1[0] != "err", f"matrix of the result: {r1[1]}", False)
     A, B = r0[1], r1[1]
     n = A.shape[0]
     if m[0] == "d":
@@ -252,8 +283,9 @@ def rand_tree(rng, depth):
 
 def gen(rng, tier):
     thorough = tier == "thorough"
+    mode = "fast"
     depth = 4 if thorough else 3
-    n_num = 2500 if thorough else 260
+    n_num = 4000 if thorough else 600
     all_chains = [(b, c) for b in STRUCT_BASES for c in chains(MODS, depth)]
     # numeric oracle on a sample of the chains (cheap ones preferred: sympy's exp is slow)
     idx = [i for i, (b, c) in enumerate(all_chains) if c]
@@ -261,17 +293,19 @@ def gen(rng, tier):
     light = [i for i in idx if sum(1 for m in all_chains[i][1] if m[0] == "e") == 0]
     heavy = [i for i in idx if sum(1 for m in all_chains[i][1] if m[0] == "e") == 1]
     num = set(light[: (n_num * 4) // 5] + heavy[: n_num // 5])
+    # a few gates on which sympy is known to be slow are still tried under the alarm (each at most ~10 s)
+    full = set(heavy[n_num // 5: n_num // 5 + (300 if thorough else 4)])
     for i, (b, c) in enumerate(all_chains):
-        yield dict(kind="chain", base=b, chain=c, num=i in num)
+        yield dict(kind="chain", base=b, chain=c, num="full" if i in full else "fast" if i in num else False)
     for b in STRUCT_BASES:
         for m in ODD_MODS:
             for pre in ([], [["c", 1]], [["d"]], [["pi", 2]]):
-                yield dict(kind="chain", base=b, chain=pre + [m], num=m[0] != "c" or m[1] < 3)
+                yield dict(kind="chain", base=b, chain=pre + [m], num=mode if (m[0] != "c" or m[1] < 3) else False)
                 yield dict(kind="chain", base=b, chain=[m] + pre, num=False)
     for _ in range(6000 if thorough else 400):
         t = rand_tree(rng, 3)
         ch = [rng.choice(MODS + ODD_MODS[:2]) for _ in range(rng.randint(1, 2))]
-        yield dict(kind="raw", ast=t, chain=ch, num=rng.random() < 0.15)
+        yield dict(kind="raw", ast=t, chain=ch, num=mode if rng.random() < 0.25 else False)
     rdepth = 3 if thorough else 2
     for b in PARAM_BASES:
         for c in chains(MODS, rdepth):
@@ -313,9 +347,19 @@ def run_chain(inp, g0, label):
     if res[0] == "ok":
         G = res[1]
         ok, msg = struct_oracle(g0, chain, G)
+        # independent restatement of when ValueError was due: free symbols under power/exp, or fewer than one
+        # control requested from a gate that carries no control count to add to
+        if ok and g0.free_symbols and any(m[0] in ("pi", "pf", "e") for m in chain):
+            ok, msg = False, f"chain {chain} on a gate with free symbols did not raise"
+        if ok:
+            g = g0
+            for m in chain:
+                if m[0] == "c" and m[1] < 1 and "ControlledGate" not in classes(g):
+                    ok, msg = False, f"controlled({m[1]}) on {g} did not raise"
+                g = apply_mod(g, m)
         if ok and inp.get("num") and chain:
             g = apply_chain(g0, chain[:-1])
-            st, ok, msg, f8able = numeric_last_step(g, chain[-1], G, 5)
+            st, ok, msg, f8able = numeric_last_step(g, chain[-1], G, 5, inp["num"] == "fast")
             kind += "-" + st
             # F8: Power.dagger / anything that calls .dagger on a gate containing a non-integer power
             if not ok and st == "num" and has_frac_power(g) and (f8able or (chain[-1][0] == "c" and has_dagger_node(g))):
